@@ -25,3 +25,30 @@ package macho
 //@   before call (*io.PipeWriter).CloseWithError(p, e): assert @a_failed_transform_fails_the_upload_instead_of_ending_it_early iface(p) == dstG && produced && e == terr
 //@   on call (*io.PipeWriter).CloseWithError(_, _) ret (x): closed = true
 //@   ensures @the_upload_stream_is_always_ended closed
+//@
+//@ extern debug/macho.NewFatFile(r)
+//@   neutral
+//@   fresh ret0
+//@   ensures ret1 == nil ==> ret0 != nil && len(ret0.Arches) >= 1
+//@
+//@ func verifyMachoFile
+//@   property C11 C02
+//@   nopanic
+//@   requires f != nil
+//@   ghost ok bool = false
+//@   before call verifyMacho(src, _, _, o): assert @the_file_itself_is_verified_with_the_callers_options src == iface(f) && o == opts
+//@   on call verifyMacho(_, _, _, _) ret (s, e): ok = (e == nil)
+//@   ensures @exactly_one_signature_and_only_for_a_verified_image ret1 == nil ==> ok && len(ret0) == 1 && ret0[0] != nil
+//@
+//@ func verifyFat
+//@   property C11 C02
+//@   nopanic
+//@   requires fr != nil
+//@   ghost failed bool = false
+//@   ghost verified int = 0
+//@   ghost narch int = -1
+//@   on call debug/macho.NewFatFile(_) ret (ff, e): narch = ite(e == nil, len(ff.Arches), -1)
+//@   before call verifyMacho(src, _, _, o): assert @every_image_is_verified_with_the_callers_options o == opts && src != nil
+//@   on call verifyMacho(_, _, _, _) ret (s, e): failed = failed || e != nil; verified = verified + ite(e == nil, 1, 0)
+//@   loop 0 sig "for _, arch := range fatFile.Arches" invariant -1 <= rangeindex && !failed && fatFile != nil && len(sigs) == rangeindex + 1 && verified == rangeindex + 1 && (sigs == nil || allocated(sigs))
+//@   ensures @one_signature_per_image_and_none_of_them_failed ret1 == nil ==> !failed && verified == len(ret0) && verified >= 1 && (narch >= 0 ==> verified == narch)
